@@ -15,12 +15,12 @@ def check(tier, seed):
     q = tier == "quick"
     plans = []
     for dim, n in ((1, 8000), (2, 8000), (3, 5000), (4, 3000)):
-        plans.append(dict(flavour="serial", label="serial-dim%d" % dim, args=["--dim", dim, "--threads", 3, "--ops", 10, "--range", 40], total=n if q else n * 40))
-    plans.append(dict(flavour="serial", label="serial-4threads", args=["--dim", 2, "--threads", 4, "--ops", 8, "--range", 12, "--budget", 8000000], total=3000 if q else 150000))
-    plans.append(dict(flavour="free", label="free-dim2", args=["--dim", 2, "--threads", 8, "--ops", 3000, "--range", 300, "--fixed"], total=48 if q else 2000, chunk=3, timeout=300))
-    plans.append(dict(flavour="free", label="free-dim1", args=["--dim", 1, "--threads", 8, "--ops", 3000, "--range", 5000, "--fixed"], total=32 if q else 1000, chunk=2, timeout=300))
-    plans.append(dict(flavour="tsan", label="free-tsan", args=["--dim", 3, "--threads", 6, "--ops", 1200, "--range", 60, "--fixed"], total=12 if q else 300, chunk=1, timeout=900))
-    plans.append(dict(flavour="asan", label="free-asan", args=["--dim", 2, "--threads", 6, "--ops", 1200, "--range", 200, "--fixed"], total=12 if q else 300, chunk=1, timeout=900))
+        plans.append(dict(flavour="serial", label="serial-dim%d" % dim, args=["--dim", dim, "--threads", 3, "--ops", 10, "--range", 40], total=n if q else n * 10))
+    plans.append(dict(flavour="serial", label="serial-4threads", args=["--dim", 2, "--threads", 4, "--ops", 8, "--range", 12, "--budget", 8000000], total=3000 if q else 30000))
+    plans.append(dict(flavour="free", label="free-dim2", args=["--dim", 2, "--threads", 8, "--ops", 3000, "--range", 300, "--fixed"], total=48 if q else 480, chunk=3, timeout=300))
+    plans.append(dict(flavour="free", label="free-dim1", args=["--dim", 1, "--threads", 8, "--ops", 3000, "--range", 5000, "--fixed"], total=32 if q else 320, chunk=2, timeout=300))
+    plans.append(dict(flavour="tsan", label="free-tsan", args=["--dim", 3, "--threads", 6, "--ops", 1200, "--range", 60, "--fixed"], total=12 if q else 120, chunk=1, timeout=900))
+    plans.append(dict(flavour="asan", label="free-asan", args=["--dim", 2, "--threads", 6, "--ops", 1200, "--range", 200, "--fixed"], total=12 if q else 120, chunk=1, timeout=900))
     # Brie guards its root / first-node records with a CAS on the pointer itself (odd value = locked), writes the record with plain
     # stores and unlocks with a plain store after __sync_synchronize(): mutual exclusion holds, but ThreadSanitizer sees no
     # release/acquire pair and reports the two writers' plain stores as a race. Reported as a diagnostic, not a violation.
